@@ -176,6 +176,10 @@ class QsModel:
             if cur is not None:
                 self.probe("re-add-after-kill")
             self.count += 1
+            if jobid is None:
+                # an automatic id never takes over an id that is in use
+                while self.count in self.jobs:
+                    self.count += 1
             timeout = a.get("timeout")
             ttl = a.get("ttl")
             j = JobM(jobid if jobid is not None else self.count, self.count, a["channel"],
